@@ -246,6 +246,7 @@ namespace {
     void run_place(RunCtx& ctx)
     {
         Rng r(mix_seed(ctx.seed, 1000));
+        ctx.params.set("rt.min_thread_count", 2 * (ctx.thorough ? 30 : 18) + 16);    // suspended hinted tasks + their wakers
         pk::draw_runtime(ctx, 4);
         int nextra = (int) ctx.params.set("c10.extra_pools", r.range(0, 2));
         std::vector<pk::PoolSpec> spec;
